@@ -173,3 +173,90 @@ class CreateVariantSect(Contract):
 
 
 NATIVE = []
+
+
+# ----------------------------------------------------------------------------
+# which SECT events a transcript graph is given
+# ----------------------------------------------------------------------------
+TVG9 = 'moPepGen/svgraph/ThreeFrameTVG.py'
+
+
+class _SectList9:
+    """sect_variants while it is filled: logs every append"""
+    def __init__(self, st):
+        self.st = st
+
+    def sym_method(self, I, name, a, k):
+        if name == 'append' and len(a) == 1:
+            self.st.log.append(a[0])
+            return None
+        raise Unsupported(f'sect_variants.{name}')
+
+
+@register
+class GatherSectVariants(Contract):
+    """ThreeFrameTVG.gather_sect_variants(anno): the graph gets exactly one SECT event per selenocysteine site of its transcript sequence, in the order
+    of the sites - the record create_variant_sect makes for this transcript at the start of that site, placed on [start, end) of the site - and nothing
+    else; the finished list is what the graph keeps"""
+    path, qualname, props = TVG9, 'ThreeFrameTVG.gather_sect_variants', ('C09',)
+    use_summaries = False
+
+    def setup(self, I):
+        e = I.e
+        st = types.SimpleNamespace(log=[])
+        st.n = e.int('n_sec_sites')
+        e.assume(st.n >= 0)
+        zz = lambda i: i if is_z3(i) else z3.IntVal(i)
+        S, E = z3.Function('sec_start', z3.IntSort(), z3.IntSort()), z3.Function('sec_end', z3.IntSort(), z3.IntSort())
+        st.S, st.E = S, E
+        st.secs = FnView(st.n, lambda i: SymObj('FeatureLocation', start=S(zz(i)), end=E(zz(i)), strand=None, seqname=None, reading_frame_index=None,
+                                               start_offset=0, end_offset=0, ref=None, ref_db=None), tag='selenocysteine sites of the transcript')
+        st.anno = SymObj('Anno9c')
+        st.graph = SymObj('ThreeFrameTVG', seq=SymObj('TxSeq9c', selenocysteine=st.secs), id='ENST_T', sect_variants=None)
+        st.args = [st.graph, st.anno]
+        self._cur = st
+        return st
+
+    @property
+    def models(self):
+        c = self
+
+        def inst(reg):
+            reg.func_('moPepGen/seqvar/VariantRecord.py', 'create_variant_sect',
+                      lambda I, a, k: SymObj('SectRecord9c', anno=a[0] if a else k.get('anno'), tx=a[1] if len(a) > 1 else k.get('tx_id'), pos=a[2] if len(a) > 2 else k.get('pos')))
+            reg.ctor_('VariantRecordWithCoordinate', lambda I, a, k: SymObj('Placed9c', location=k.get('location', a[1] if len(a) > 1 else None), variant=k.get('variant', a[0] if a else None)))
+            reg.ctor_('FeatureLocation', lambda I, a, k: SymObj('Loc9c', start=a[0] if a else k.get('start'), end=a[1] if len(a) > 1 else k.get('end')))
+        return (inst,)
+
+    def havoc(self, I, env, k):
+        env.set('sect_variants', _SectList9(self._cur))
+
+    def inv(self, I, env, k):
+        v = env.lookup('sect_variants') if env.has('sect_variants') else None
+        if isinstance(k, int) and k == 0:
+            return [('the-list-starts-empty', z3.BoolVal(v == []))]
+        return [('the-list-being-filled-is-kept', z3.BoolVal(isinstance(v, _SectList9)))]
+
+    def head(self, I, env, k):
+        self._cur.mark = len(self._cur.log)
+
+    def step(self, I, env, k):
+        st = self._cur
+        new = st.log[st.mark:]
+        ok = len(new) == 1 and isinstance(new[0], SymObj) and new[0].cls == 'Placed9c'
+        if not ok:
+            return [('one-event-per-site', False)]
+        var, loc = new[0].fields['variant'], new[0].fields['location']
+        okv = isinstance(var, SymObj) and var.cls == 'SectRecord9c' and var.fields['anno'] is st.anno and var.fields['tx'] == 'ENST_T'
+        okl = isinstance(loc, SymObj) and loc.cls == 'Loc9c'
+        return [('the-event-is-the-SECT-record-of-this-transcript-at-the-start-of-site-k', var.fields['pos'] == st.S(k) if okv and is_z3(var.fields['pos']) else False),
+                ('the-event-is-placed-on-site-k', z3.And(loc.fields['start'] == st.S(k), loc.fields['end'] == st.E(k)) if okl else False)]
+
+    @property
+    def loops(self):
+        return {0: LoopSpec(inv=self.inv, havoc=self.havoc, on_head=self.head, step=self.step, target_after='unknown',
+                            on_break=lambda I, env, k: [('every-site-is-visited', False)],
+                            on_exit=lambda I, env, n: [('all-sites-were-visited', n == self._cur.n)])}
+
+    def post_return(self, I, st, ret):
+        I.e.prove('C09/gather-sect/the-graph-keeps-the-finished-list', z3.BoolVal(isinstance(st.graph.fields.get('sect_variants'), _SectList9)))
